@@ -47,6 +47,18 @@ def run(ctx):
             d_fd = pathterms.tube_virtual_distance(info)
             if not rel(d, d_fd, 2e-5):
                 ctx.violate(f"beamspread gives virtual distance {d}, the ray tube launched at the source gives {d_fd}", cj, {"kind": "ray_tube", "legs": n - 1})
+        # the receive-side term: the beamspread with the source at the last point of the same ray is the divergence of the
+        # tube launched there and followed backwards through the same walls
+        rb = float(model.reverse_beamspread_2d_for_path(rg)[0, 0])
+        d_rev = 1.0 / rb ** 2
+        ctx.count("reverse_tube")
+        if n == 2:
+            if not rel(d_rev, info["legs"][0], 1e-12):
+                ctx.violate(f"single medium: reverse virtual distance {d_rev} is not the leg length {info['legs'][0]}", cj, {"kind": "single_medium_reverse"})
+        else:
+            d_fd_rev = pathterms.tube_virtual_distance(pathterms.reverse_info(info))
+            if not rel(d_rev, d_fd_rev, 2e-5):
+                ctx.violate(f"reverse beamspread gives virtual distance {d_rev}, the ray tube launched at the last point gives {d_fd_rev}", cj, {"kind": "ray_tube_reverse", "legs": n - 1})
         # scaling: the whole geometry times s -> beamspread / sqrt(s)
         s = float(rng.uniform(0.2, 5.0))
         import arim.geometry as g
